@@ -276,8 +276,17 @@ End WalkFacts.
 
 (* ---------- LocalStore.Prune ---------- *)
 
+Lemma remove_ok_exists p s s' : remove p s = Ok s' -> stat p s <> None.
+Proof.
+  unfold remove. intros R. unfold stat, lookup.
+  destruct (resolve p s) as [n|e] eqn:RS; [discriminate|]. exfalso.
+  unfold unlink in R. destruct (stat_upd_point _ _ _ _ R) as (r & F & _).
+  unfold lookup in F. rewrite RS in F. discriminate.
+Qed.
+
 Section PruneProofs.
   Variable tmp_rule : bool.      (* true: LocalStore.Prune, false: SFTPStore.Prune *)
+  Variable stop : path -> bool.  (* where the context is found cancelled *)
   Variable st : store.
   Variable keep : id -> bool.
 
@@ -288,23 +297,25 @@ Section PruneProofs.
   Lemma remove_chunk_ok i s s' : remove_chunk st i s = RmOk s' ->
     remove (canon st i) s = Ok s' /\ stat (canon st i) s <> None.
   Proof.
-    unfold remove_chunk. fold (canon st i). rewrite probe_char.
-    destruct (stat (canon st i) s) eqn:S; [|discriminate].
-    destruct (remove (canon st i) s); [|discriminate]. intros E. inversion E. split; [reflexivity|discriminate].
+    unfold remove_chunk. fold (canon st i).
+    destruct (probe_f (canon st i) s); [|discriminate].
+    destruct (remove (canon st i) s) eqn:R; [|discriminate]. intros E. inversion E; subst. split; [reflexivity|].
+    eapply remove_ok_exists; eauto.
   Qed.
 
-  Lemma remove_chunk_missing i s : remove_chunk st i s = RmMissing -> stat (canon st i) s = None.
+  (* ChunkMissing from RemoveChunk: Stat failed -- the path does not exist, or is a dangling link *)
+  Lemma remove_chunk_missing i s m b : remove_chunk st i s = RmMissing -> stat (canon st i) s <> Some (EFile m b).
   Proof.
-    unfold remove_chunk. fold (canon st i). rewrite probe_char.
-    destruct (stat (canon st i) s) eqn:S; [|reflexivity].
+    unfold remove_chunk. fold (canon st i). intros R S. rewrite (probe_f_file _ _ _ _ S) in R.
     destruct (remove (canon st i) s); discriminate.
   Qed.
 
   (* one callback: nothing, or exactly one removal of a removable path *)
-  Lemma prune_file_step pstr p s s' e : prune_file_gen tmp_rule st keep pstr p s = (s', e) ->
+  Lemma prune_file_step pstr p s s' e : prune_file_gen tmp_rule stop st keep pstr p s = (s', e) ->
     s' = s \/ exists t, remove t s = Ok s' /\ removable t /\ stat t s <> None.
   Proof.
-    unfold prune_file_gen. destruct (tmp_rule && has_prefix (last p []) tmpChunkPrefix_bytes) eqn:T.
+    unfold prune_file_gen. destruct (stop p); [intros E; inversion E; now left|].
+    destruct (tmp_rule && has_prefix (last p []) tmpChunkPrefix_bytes) eqn:T.
     - destruct (remove p s) as [s1|er] eqn:R; intros E; inversion E; subst; [|now left].
       apply andb_true_iff in T. destruct T as [T1 T2].
       right. exists p. split; [exact R|]. split; [left; split; [exact T1|exact T2]|].
@@ -320,7 +331,7 @@ Section PruneProofs.
       eapply unhex_id_wf; eauto.
   Qed.
 
-  Lemma prune_file_mono pstr p s s' e : prune_file_gen tmp_rule st keep pstr p s = (s', e) -> mono s s'.
+  Lemma prune_file_mono pstr p s s' e : prune_file_gen tmp_rule stop st keep pstr p s = (s', e) -> mono s s'.
   Proof.
     intros E. destruct (prune_file_step _ _ _ _ _ E) as [->|(t & R & _)]; [apply mono_refl|].
     intros q en. rewrite (remove_stat _ _ _ R). destruct (path_eqb q t); [discriminate|tauto].
@@ -330,7 +341,7 @@ Section PruneProofs.
     forall q, stat q s = stat q s0 \/ (stat q s = None /\ stat q s0 <> None /\ removable q).
 
   Lemma prune_file_safe s0 pstr p s s' e :
-    safe_rel s0 s -> prune_file_gen tmp_rule st keep pstr p s = (s', e) -> safe_rel s0 s'.
+    safe_rel s0 s -> prune_file_gen tmp_rule stop st keep pstr p s = (s', e) -> safe_rel s0 s'.
   Proof.
     intros I E. destruct (prune_file_step _ _ _ _ _ E) as [->|(t & R & Rm & N)]; [exact I|].
     intros q. rewrite (remove_stat _ _ _ R). destruct (path_eqb q t) eqn:Q; [|apply I].
@@ -340,7 +351,7 @@ Section PruneProofs.
 
   (* prune_safe *)
   Lemma prune_safe fuel bstr s0 s' e :
-    prune_gen tmp_rule fuel st bstr keep s0 = (s', e) ->
+    prune_gen tmp_rule stop fuel st bstr keep s0 = (s', e) ->
     forall q, stat q s' = stat q s0 \/ (stat q s' = None /\ stat q s0 <> None /\ removable q).
   Proof.
     unfold prune_gen, walk_root. destruct (lookup (st_base st) s0) as [c|]; [|intros E; inversion E; now left].
@@ -358,10 +369,11 @@ Section PruneProofs.
 
   Lemma prune_file_good s0 dstr p s s' :
     p <> [] -> is_dir (stat p s) = false ->
-    mono s0 s -> prune_file_gen tmp_rule st keep (join_str dstr (last p [])) p s = (s', None) ->
+    mono s0 s -> prune_file_gen tmp_rule stop st keep (join_str dstr (last p [])) p s = (s', None) ->
     stat p s' <> None -> good s0 p.
   Proof.
     unfold prune_file_gen, good, is_tmp. rewrite chunk_file_id_base. intros Hp Nd M.
+    destruct (stop p); [discriminate|].
     destruct (tmp_rule && has_prefix (last p []) tmpChunkPrefix_bytes) eqn:T.
     - destruct (remove p s) as [s1|er] eqn:R; intros E; inversion E; subst; intros N.
       + rewrite (remove_stat _ _ _ R), path_eqb_refl in N. congruence.
@@ -378,18 +390,20 @@ Section PruneProofs.
       + destruct (stat (canon st i) s) eqn:S1; [|congruence]. rewrite (M _ _ S1). discriminate.
   Qed.
 
-  Lemma prune_file_nofuel pstr p s s' e : prune_file_gen tmp_rule st keep pstr p s = (s', e) -> e <> Some WeFuel.
+  Lemma prune_file_nofuel pstr p s s' e : prune_file_gen tmp_rule stop st keep pstr p s = (s', e) -> e <> Some WeFuel.
   Proof.
-    unfold prune_file_gen. destruct (tmp_rule && has_prefix (last p []) tmpChunkPrefix_bytes).
+    unfold prune_file_gen. destruct (stop p); [intros E; inversion E; discriminate|].
+    destruct (tmp_rule && has_prefix (last p []) tmpChunkPrefix_bytes).
     - intros E; inversion E; discriminate.
     - destruct (chunk_file_id (st_unc st) pstr (last p [])); [|intros E; inversion E; discriminate].
       destruct (keep i); [intros E; inversion E; discriminate|].
       destruct (remove_chunk st i s); intros E; inversion E; discriminate.
   Qed.
 
-  Lemma prune_file_noblock pstr p s s' e : prune_file_gen tmp_rule st keep pstr p s = (s', e) -> e <> Some WeBlocked.
+  Lemma prune_file_noblock pstr p s s' e : prune_file_gen tmp_rule stop st keep pstr p s = (s', e) -> e <> Some WeBlocked.
   Proof.
-    unfold prune_file_gen. destruct (tmp_rule && has_prefix (last p []) tmpChunkPrefix_bytes).
+    unfold prune_file_gen. destruct (stop p); [intros E; inversion E; discriminate|].
+    destruct (tmp_rule && has_prefix (last p []) tmpChunkPrefix_bytes).
     - intros E; inversion E; discriminate.
     - destruct (chunk_file_id (st_unc st) pstr (last p [])); [|intros E; inversion E; discriminate].
       destruct (keep i); [intros E; inversion E; discriminate|].
@@ -397,12 +411,12 @@ Section PruneProofs.
   Qed.
 
   (* Prune never waits for a second connection, whatever the pool size *)
-  Lemma prune_never_blocks fuel bstr s0 : snd (prune_gen tmp_rule fuel st bstr keep s0) <> Some WeBlocked.
+  Lemma prune_never_blocks fuel bstr s0 : snd (prune_gen tmp_rule stop fuel st bstr keep s0) <> Some WeBlocked.
   Proof.
     unfold prune_gen, walk_root. destruct (lookup (st_base st) s0) as [c|]; [|discriminate].
-    destruct (walk (fun s => s) (prune_file_gen tmp_rule st keep) fuel bstr (st_base st) (node_is_dir c) s0) as [s' e] eqn:W.
+    destruct (walk (fun s => s) (prune_file_gen tmp_rule stop st keep) fuel bstr (st_base st) (node_is_dir c) s0) as [s' e] eqn:W.
     cbn [snd]. destruct e as [e|]; [|discriminate].
-    refine (walk_err_cases (fun s => s) (prune_file_gen tmp_rule st keep) (fun e => Some e <> Some WeBlocked) _ _ _
+    refine (walk_err_cases (fun s => s) (prune_file_gen tmp_rule stop st keep) (fun e => Some e <> Some WeBlocked) _ _ _
               fuel bstr _ _ s0 s' e W); try discriminate.
     intros ps q x x' e0 O. eapply prune_file_noblock; eauto.
   Qed.
@@ -410,12 +424,12 @@ Section PruneProofs.
   (* a recursion budget above the depth of the store never runs out *)
   Lemma prune_fuel_suffices fuel bstr s0 :
     (forall q en, stat (st_base st ++ q) s0 = Some en -> length q < fuel) ->
-    snd (prune_gen tmp_rule fuel st bstr keep s0) <> Some WeFuel.
+    snd (prune_gen tmp_rule stop fuel st bstr keep s0) <> Some WeFuel.
   Proof.
     intros B. unfold prune_gen, walk_root. destruct (lookup (st_base st) s0) as [c|] eqn:L; [|discriminate].
-    destruct (walk (fun s => s) (prune_file_gen tmp_rule st keep) fuel bstr (st_base st) (node_is_dir c) s0) as [s' e] eqn:W.
+    destruct (walk (fun s => s) (prune_file_gen tmp_rule stop st keep) fuel bstr (st_base st) (node_is_dir c) s0) as [s' e] eqn:W.
     cbn [snd].
-    refine (walk_fuel (fun s => s) (prune_file_gen tmp_rule st keep) mono mono_refl mono_trans (fun _ _ M => M) _ _
+    refine (walk_fuel (fun s => s) (prune_file_gen tmp_rule stop st keep) mono mono_refl mono_trans (fun _ _ M => M) _ _
               fuel bstr (st_base st) (node_is_dir c) s0 s' e _ B W).
     - intros. eapply prune_file_mono; eauto.
     - intros. eapply prune_file_nofuel; eauto.
@@ -425,12 +439,12 @@ Section PruneProofs.
   (* every non-directory below the base that is still there after a prune that returned nil is good *)
   Lemma prune_post fuel bstr s0 s' :
     is_dir (stat (st_base st) s0) = true ->
-    prune_gen tmp_rule fuel st bstr keep s0 = (s', None) ->
+    prune_gen tmp_rule stop fuel st bstr keep s0 = (s', None) ->
     forall t en, stat (st_base st ++ t) s' = Some en -> is_dir (Some en) = false -> good s0 (st_base st ++ t).
   Proof.
     unfold prune_gen, walk_root. intros D. destruct (lookup (st_base st) s0) as [c|] eqn:L; [|discriminate].
     intros W.
-    refine (walk_post (fun s => s) (prune_file_gen tmp_rule st keep) mono mono_refl mono_trans (fun _ _ M => M) _
+    refine (walk_post (fun s => s) (prune_file_gen tmp_rule stop st keep) mono mono_refl mono_trans (fun _ _ M => M) _
               (mono s0) _ (fun _ => good s0) (fun _ _ _ _ G => G) _
               fuel bstr (st_base st) (node_is_dir c) s0 s' (mono_refl _) _ _ W).
     - intros. eapply prune_file_mono; eauto.
@@ -443,7 +457,7 @@ Section PruneProofs.
   (* prune_complete *)
   Lemma prune_complete fuel bstr s0 s' :
     is_dir (stat (st_base st) s0) = true ->
-    prune_gen tmp_rule fuel st bstr keep s0 = (s', None) ->
+    prune_gen tmp_rule stop fuel st bstr keep s0 = (s', None) ->
     (forall i en, wf_id i -> keep i = false -> stat (canon st i) s' = Some en -> is_dir (Some en) = true) /\
     (tmp_rule = true ->
      forall t en, stat (st_base st ++ t) s' = Some en -> is_tmp (last (st_base st ++ t) []) = true -> is_dir (Some en) = true).
@@ -466,9 +480,9 @@ Section PruneProofs.
     (tmp_rule = true -> is_tmp (last (st_base st ++ t) []) = false) ->
     base_file_id (st_unc st) (last (st_base st ++ t) []) = Some i -> keep i = false ->
     stat (canon st i) s0 = None ->
-    snd (prune_gen tmp_rule fuel st bstr keep s0) <> None.
+    snd (prune_gen tmp_rule stop fuel st bstr keep s0) <> None.
   Proof.
-    intros D S Nd T B K C. destruct (prune_gen tmp_rule fuel st bstr keep s0) as [s' e] eqn:P. cbn [snd].
+    intros D S Nd T B K C. destruct (prune_gen tmp_rule stop fuel st bstr keep s0) as [s' e] eqn:P. cbn [snd].
     destruct e; [discriminate|]. exfalso.
     destruct (prune_safe _ _ _ _ _ P (st_base st ++ t)) as [Eq|(_ & _ & [[TR Tm]|(j & Wj & Kj & Ej)])].
     - rewrite S in Eq. pose proof (prune_post _ _ _ _ D P _ _ Eq Nd) as [_ G].
@@ -510,10 +524,22 @@ Section VerifyProofs.
   Lemma canon_nonnil i : canon st i <> [].
   Proof. intros E. pose proof (canon_length i) as L. rewrite E in L. discriminate. Qed.
 
+  Lemma probe_remove_frame i j s s' : wf_id i -> wf_id j -> i <> j ->
+    remove (canon st i) s = Ok s' -> probe (canon st j) s' = probe (canon st j) s.
+  Proof.
+    intros Wi Wj N R. apply probe_ext.
+    - rewrite (remove_stat _ _ _ R). replace (path_eqb (canon st j) (canon st i)) with false; [reflexivity|].
+      symmetry. apply path_eqb_neq. intros E. apply N. symmetry. now apply canon_inj.
+    - intros q I. apply in_sprefixes_length in I. rewrite (remove_stat _ _ _ R).
+      replace (path_eqb q (canon st i)) with false; [reflexivity|].
+      symmetry. apply path_eqb_neq. intros ->. rewrite !canon_length in I. lia.
+  Qed.
+
   Lemma get_chunk_remove_frame i j s s' : wf_id i -> wf_id j -> i <> j ->
+    not_link (probe (canon st j) s) ->
     remove (canon st i) s = Ok s' -> get_chunk st j s' = get_chunk st j s.
   Proof.
-    intros Wi Wj N R.
+    intros Wi Wj N NL R.
     assert (P : probe (canon st j) s' = probe (canon st j) s).
     { apply probe_ext.
       - rewrite (remove_stat _ _ _ R). replace (path_eqb (canon st j) (canon st i)) with false; [reflexivity|].
@@ -521,13 +547,14 @@ Section VerifyProofs.
       - intros q I. apply in_sprefixes_length in I. rewrite (remove_stat _ _ _ R).
         replace (path_eqb q (canon st i)) with false; [reflexivity|].
         symmetry. apply path_eqb_neq. intros ->. rewrite !canon_length in I. lia. }
-    unfold LocalStore.get_chunk, read_file. fold (canon st j). now rewrite P.
+    unfold LocalStore.get_chunk, read_file. fold (canon st j).
+    rewrite !probe_f_eq; [now rewrite P|exact NL|rewrite P; exact NL].
   Qed.
 
   Lemma verify_one_spec repair i s s' m : verify_one st repair i s = (s', m) ->
     ((reported m = [i] /\ invalid i s) \/ (reported m = [] /\ ~ invalid i s /\ s' = s)) /\
     (s' = s \/ (repair = true /\ invalid i s /\ remove (canon st i) s = Ok s')) /\
-    (repair = true -> invalid i s -> (exists en, stat (canon st i) s = Some en /\ is_dir (Some en) = false) ->
+    (repair = true -> invalid i s -> (exists m0 b0, stat (canon st i) s = Some (EFile m0 b0)) ->
      stat (canon st i) s' = None).
   Proof.
     unfold Prune.verify_one, invalid. destruct (get_chunk st i s) as [b| |sum] eqn:G.
@@ -541,35 +568,35 @@ Section VerifyProofs.
           split; [left; split; [reflexivity|now exists sum]|]. split; [right; repeat split; [now exists sum|exact R]|].
           intros _ _ _. now rewrite (remove_stat _ _ _ R), path_eqb_refl.
         * split; [left; split; [reflexivity|now exists sum]|]. split; [now left|].
-          intros _ _ (en & S & _). apply remove_chunk_missing in R. congruence.
+          intros _ _ (m0 & b0 & S). exfalso. exact (remove_chunk_missing st _ _ _ _ R S).
         * split; [left; split; [reflexivity|now exists sum]|]. split; [now left|].
-          intros _ _ (en & S & Nd). exfalso.
-          unfold remove_chunk in R. fold (canon st i) in R. rewrite probe_char, S in R.
-          destruct (unlink_ok (canon st i) s' (canon_nonnil i)) as [s2 U]; [now exists en|].
+          intros _ _ (m0 & b0 & S). exfalso.
+          unfold remove_chunk in R. fold (canon st i) in R. rewrite (probe_f_file _ _ _ _ S) in R.
+          destruct (unlink_ok (canon st i) s' (canon_nonnil i)) as [s2 U]; [exists (EFile m0 b0); now split|].
           unfold remove in R. unfold stat, lookup in S.
-          destruct (resolve (canon st i) s') as [[m0 l|m0 b|m0 t]|e0]; try discriminate.
-          -- cbn in S. inversion S; subst. discriminate.
-          -- rewrite U in R. discriminate.
+          destruct (resolve (canon st i) s') as [[m1 l|m1 b|m1 t]|e0]; try discriminate.
           -- rewrite U in R. discriminate.
       + intros E; inversion E; subst. split; [left; split; [reflexivity|now exists sum]|].
         split; [now left|]. discriminate.
   Qed.
 
   Lemma invalid_frame i j s s' : wf_id i -> wf_id j -> i <> j ->
+    not_link (probe (canon st j) s) ->
     remove (canon st i) s = Ok s' -> (invalid j s' <-> invalid j s).
-  Proof. intros Wi Wj N R. unfold invalid. now rewrite (get_chunk_remove_frame _ _ _ _ Wi Wj N R). Qed.
+  Proof. intros Wi Wj N NL R. unfold invalid. now rewrite (get_chunk_remove_frame _ _ _ _ Wi Wj N NL R). Qed.
 
   (* the workers' iterations in feeding order *)
   Lemma verify_all_spec repair ids : forall s s' msgs,
-    Forall wf_id ids -> verify_all st repair ids s = (s', msgs) ->
+    Forall wf_id ids -> (forall j, In j ids -> not_link (probe (canon st j) s)) ->
+    verify_all st repair ids s = (s', msgs) ->
     (forall j, In j (reported msgs) <-> In j ids /\ invalid j s) /\
     (forall q, stat q s' = stat q s \/
                (stat q s' = None /\ repair = true /\ exists i, In i ids /\ invalid i s /\ q = canon st i)) /\
     (repair = false -> s' = s) /\
     (repair = true -> forall i, In i ids -> invalid i s ->
-       (exists en, stat (canon st i) s = Some en /\ is_dir (Some en) = false) -> stat (canon st i) s' = None).
+       (exists m b, stat (canon st i) s = Some (EFile m b)) -> stat (canon st i) s' = None).
   Proof.
-    induction ids as [|i r IH]; intros s s' msgs W E; cbn [Prune.verify_all] in E.
+    induction ids as [|i r IH]; intros s s' msgs W NL E; cbn [Prune.verify_all] in E.
     - inversion E; subst. split; [|split; [|split]].
       + intros j. cbn. tauto.
       + intros q. now left.
@@ -579,11 +606,17 @@ Section VerifyProofs.
       destruct (verify_one st repair i s) as [s1 m1] eqn:V1.
       destruct (verify_all st repair r s1) as [s2 m2] eqn:V2. inversion E; subst. clear E.
       destruct (verify_one_spec _ _ _ _ _ V1) as (Rep & St & Rm).
-      destruct (IH _ _ _ Wr V2) as (IH1 & IH2 & IH3 & IH4).
-      (* invalidity of the other ids is unaffected by what was done for i *)
-      assert (Fr : forall j, wf_id j -> j <> i -> (invalid j s1 <-> invalid j s)).
-      { intros j Wj N. destruct St as [->|(_ & _ & R)]; [reflexivity|]. apply (invalid_frame i j); auto. }
       assert (Wr' : forall j, In j r -> wf_id j) by (apply Forall_forall; exact Wr).
+      assert (NL1 : forall j, In j r -> not_link (probe (canon st j) s1)).
+      { intros j Ij. destruct St as [->|(_ & _ & R)]; [apply NL; now right|].
+        destruct (N.eq_dec j i) as [->|N].
+        - apply not_link_of_stat_none. now rewrite (remove_stat _ _ _ R), path_eqb_refl.
+        - rewrite (probe_remove_frame i j _ _ Wi (Wr' _ Ij) (fun X => N (eq_sym X)) R). apply NL. now right. }
+      destruct (IH _ _ _ Wr NL1 V2) as (IH1 & IH2 & IH3 & IH4).
+      (* invalidity of the other ids is unaffected by what was done for i *)
+      assert (Fr : forall j, In j r -> j <> i -> (invalid j s1 <-> invalid j s)).
+      { intros j Ij N. destruct St as [->|(_ & _ & R)]; [reflexivity|].
+        apply (invalid_frame i j); auto. apply NL. now right. }
       split; [|split; [|split]].
       + intros j. rewrite reported_app, in_app_iff, IH1. cbn [In].
         destruct (N.eq_dec j i) as [->|N].
@@ -591,8 +624,8 @@ Section VerifyProofs.
         * assert (~ In j (reported m1)).
           { destruct Rep as [[R1 _]|[R1 _]]; rewrite R1; cbn; [intros [X|[]]; congruence|tauto]. }
           split.
-          -- intros [X|[X Y]]; [contradiction|]. split; [now right|]. apply (Fr j (Wr' _ X) N), Y.
-          -- intros [[X|X] Y]; [congruence|]. right. split; [exact X|]. apply (Fr j (Wr' _ X) N), Y.
+          -- intros [X|[X Y]]; [contradiction|]. split; [now right|]. apply (Fr j X N), Y.
+          -- intros [[X|X] Y]; [congruence|]. right. split; [exact X|]. apply (Fr j X N), Y.
       + intros q. destruct (IH2 q) as [Eq|(Nn & Rp & j & Ij & Vj & Qj)].
         * rewrite Eq. destruct St as [->|(Rp & Iv & R)]; [now left|].
           rewrite (remove_stat _ _ _ R). destruct (path_eqb q (canon st i)) eqn:Q; [|now left].
@@ -605,16 +638,16 @@ Section VerifyProofs.
                 destruct St as [->|(_ & Iv & _)]; [exact Vj|exact Iv].
              ++ left. congruence.
           -- right. split; [exact Nn|]. split; [exact Rp|]. exists j. split; [now right|].
-             split; [apply (Fr j (Wr' _ Ij) N), Vj|exact Qj].
+             split; [apply (Fr j Ij N), Vj|exact Qj].
       + intros Rp. rewrite (IH3 Rp). destruct St as [->|(Rp' & _)]; [reflexivity|congruence].
       + intros Rp j [<-|Ij] Vj Ex.
         * specialize (Rm Rp Vj Ex). destruct (IH2 (canon st i)) as [Eq|(Nn & _)]; congruence.
         * destruct (N.eq_dec j i) as [->|N].
           -- specialize (Rm Rp Vj Ex). destruct (IH2 (canon st i)) as [Eq|(Nn & _)]; congruence.
           -- apply IH4; auto.
-             ++ apply (Fr j (Wr' _ Ij) N), Vj.
+             ++ apply (Fr j Ij N), Vj.
              ++ destruct St as [->|(_ & _ & R)]; [exact Ex|].
-                destruct Ex as (en & S & Nd). exists en. split; [|exact Nd].
+                destruct Ex as (m0 & b0 & S). exists m0, b0.
                 rewrite (remove_stat _ _ _ R). replace (path_eqb (canon st j) (canon st i)) with false; [exact S|].
                 symmetry. apply path_eqb_neq. intros X. apply N. now apply canon_inj; auto.
   Qed.
@@ -623,14 +656,18 @@ Section VerifyProofs.
      a file (alias-free store): same reported set, same resulting tree. *)
   Lemma verify_all_perm repair ids ids' s s1 m1 s2 m2 :
     Permutation ids ids' -> Forall wf_id ids ->
-    (forall i, In i ids -> exists en, stat (canon st i) s = Some en /\ is_dir (Some en) = false) ->
+    (forall i, In i ids -> exists m b, stat (canon st i) s = Some (EFile m b)) ->
     verify_all st repair ids s = (s1, m1) -> verify_all st repair ids' s = (s2, m2) ->
     (forall j, In j (reported m1) <-> In j (reported m2)) /\ (forall q, stat q s1 = stat q s2).
   Proof.
     intros P W Fl V1 V2.
     assert (W' : Forall wf_id ids') by (eapply Permutation_Forall; eauto).
-    destruct (verify_all_spec _ _ _ _ _ W V1) as (A1 & A2 & _ & A4).
-    destruct (verify_all_spec _ _ _ _ _ W' V2) as (B1 & B2 & _ & B4).
+    assert (NLa : forall j, In j ids -> not_link (probe (canon st j) s)).
+    { intros j Ij. destruct (Fl j Ij) as (m & b & S). rewrite (probe_of_stat _ _ _ S). exact I. }
+    assert (NLb : forall j, In j ids' -> not_link (probe (canon st j) s)).
+    { intros j Ij. apply NLa. eapply Permutation_in; [apply Permutation_sym; exact P|exact Ij]. }
+    destruct (verify_all_spec _ _ _ _ _ W NLa V1) as (A1 & A2 & _ & A4).
+    destruct (verify_all_spec _ _ _ _ _ W' NLb V2) as (B1 & B2 & _ & B4).
     split.
     - intros j. rewrite A1, B1. split; intros [I V]; (split; [|exact V]).
       + eapply Permutation_in; eauto.
@@ -718,27 +755,38 @@ Section VerifyProofs.
       exact (G i B Q).
   Qed.
 
+  (* no chunk of the store's own format is kept as a symbolic link *)
+  Definition no_chunk_links (s : node) : Prop := forall i, not_link (probe (canon st i) s).
+
+  Lemma nondir_nolink_file s i en : no_chunk_links s -> stat (canon st i) s = Some en -> is_dir (Some en) = false ->
+    exists m b, en = EFile m b.
+  Proof.
+    intros NL S Nd. specialize (NL i). rewrite (probe_of_stat _ _ _ S) in NL.
+    destruct en as [m|m b|m t]; [discriminate|now exists m, b|destruct NL].
+  Qed.
+
   (* verify_exact *)
   Lemma verify_exact fuel bstr repair s0 s' msgs :
-    is_dir (stat (st_base st) s0) = true ->
+    is_dir (stat (st_base st) s0) = true -> no_chunk_links s0 ->
     verify_raw H zdecomp fuel st bstr repair s0 = (s', msgs, None) ->
     (forall i, In i (reported msgs) ->
-       wf_id i /\ invalid i s0 /\ exists en, stat (canon st i) s0 = Some en /\ is_dir (Some en) = false) /\
+       wf_id i /\ invalid i s0 /\ exists m b, stat (canon st i) s0 = Some (EFile m b)) /\
     (forall i en, wf_id i -> stat (canon st i) s0 = Some en -> is_dir (Some en) = false ->
                   invalid i s0 -> In i (reported msgs)) /\
     (repair = false -> s' = s0) /\
     (forall q, stat q s' = stat q s0 \/
                (stat q s' = None /\ repair = true /\ exists i, In i (reported msgs) /\ q = canon st i)) /\
-    (repair = true -> forall i en, In i (reported msgs) -> stat (canon st i) s0 = Some en ->
-                      is_dir (Some en) = false -> stat (canon st i) s' = None) /\
+    (repair = true -> forall i, In i (reported msgs) -> stat (canon st i) s' = None) /\
     (st_skip st = false -> forall i m b, wf_id i -> stat (canon st i) s0 = Some (EFile m b) ->
                       ~ In i (reported msgs) -> exists d, storage_data zdecomp (st_unc st) b = Some d /\ H d = i).
   Proof.
-    intros D. unfold verify_raw. destruct (verify_ids fuel st bstr s0) as [ids e] eqn:VI.
+    intros D NL. unfold verify_raw. destruct (verify_ids fuel st bstr s0) as [ids e] eqn:VI.
     destruct (Prune.verify_all H zdecomp st repair ids s0) as [s1 m1] eqn:VA.
     intros E. inversion E; subst. clear E.
     destruct (verify_ids_spec _ _ _ _ _ VI) as (Wf & Canon & Cov). specialize (Cov eq_refl D).
-    destruct (verify_all_spec _ _ _ _ _ Wf VA) as (A1 & A2 & A3 & A4).
+    destruct (verify_all_spec _ _ _ _ _ Wf (fun j _ => NL j) VA) as (A1 & A2 & A3 & A4).
+    assert (CanonF : forall i, In i ids -> exists m b, stat (canon st i) s0 = Some (EFile m b)).
+    { intros i I. destruct (Canon i I) as (en & S & Nd). destruct (nondir_nolink_file _ _ _ NL S Nd) as (m & b & ->). now exists m, b. }
     assert (Fed : forall i en, wf_id i -> stat (canon st i) s0 = Some en -> is_dir (Some en) = false -> In i ids).
     { intros i en Wi S Nd. unfold canon, name_from_id in S. cbn [snd] in S. rewrite <- app_assoc in S.
       eapply Cov; eauto.
@@ -749,7 +797,7 @@ Section VerifyProofs.
     6:{ intros K i m b Wi S Nr.
         assert (I : In i ids) by (eapply Fed; eauto).
         assert (G : get_chunk st i s0 = new_chunk_from_storage H zdecomp i b (st_unc st) false).
-        { unfold LocalStore.get_chunk, read_file. fold (canon st i). rewrite probe_char, S, K. reflexivity. }
+        { unfold LocalStore.get_chunk, read_file. fold (canon st i). rewrite (probe_f_file _ _ _ _ S), K. reflexivity. }
         destruct (new_chunk_from_storage H zdecomp i b (st_unc st) false) as [b'| |sum] eqn:N.
         - assert (b' = b). { unfold new_chunk_from_storage in N. destruct (storage_data zdecomp (st_unc st) b); [|discriminate].
             destruct (N.eqb (H b0) i); inversion N; reflexivity. }
@@ -757,13 +805,13 @@ Section VerifyProofs.
         - unfold new_chunk_from_storage in N. destruct (storage_data zdecomp (st_unc st) b); [|discriminate].
           destruct (N.eqb (H b0) i); discriminate.
         - exfalso. apply Nr. apply A1. split; [exact I|]. exists sum. exact G. }
-    - intros i I. apply A1 in I. destruct I as [I V]. split; [|split; [exact V|now apply Canon]].
+    - intros i I. apply A1 in I. destruct I as [I V]. split; [|split; [exact V|now apply CanonF]].
       rewrite Forall_forall in Wf. now apply Wf.
     - intros i en Wi S Nd V. apply A1. split; [|exact V]. eapply Fed; eauto.
     - exact A3.
     - intros q. destruct (A2 q) as [Eq|(Nn & Rp & i & Ii & Vi & Qi)]; [now left|].
       right. split; [exact Nn|]. split; [exact Rp|]. exists i. split; [|exact Qi]. apply A1. now split.
-    - intros Rp i en I S Nd. apply A1 in I. destruct I as [I V]. apply A4; eauto.
+    - intros Rp i I. apply A1 in I. destruct I as [I V]. apply A4; auto.
   Qed.
 End VerifyProofs.
 
@@ -970,11 +1018,11 @@ Proof.
   apply name_from_id_inj in E; [|exact Wj|exact Wi]. destruct E as [_ E]. destruct z; discriminate.
 Qed.
 
-Lemma prune_leaves_other_format tmp_rule st keep fuel bstr s0 s' e j :
-  prune_gen tmp_rule fuel st bstr keep s0 = (s', e) -> wf_id j ->
+Lemma prune_leaves_other_format tmp_rule stop st keep fuel bstr s0 s' e j :
+  prune_gen tmp_rule stop fuel st bstr keep s0 = (s', e) -> wf_id j ->
   stat (canon (other_format st) j) s' = stat (canon (other_format st) j) s0.
 Proof.
-  intros P Wj. destruct (prune_safe _ _ _ _ _ _ _ _ P (canon (other_format st) j)) as [E|(_ & _ & [[_ T]|(i & Wi & _ & Q)])].
+  intros P Wj. destruct (prune_safe _ _ _ _ _ _ _ _ _ P (canon (other_format st) j)) as [E|(_ & _ & [[_ T]|(i & Wi & _ & Q)])].
   - exact E.
   - rewrite last_canon, chunk_name_not_tmp in T. discriminate.
   - exfalso. exact (canon_other_neq st i j Wi Wj Q).
@@ -1005,28 +1053,30 @@ Proof.
 Qed.
 
 Lemma verify_leaves_other_format (H : bytes -> id) zdecomp st fuel bstr repair s0 s' msgs j :
-  is_dir (stat (st_base st) s0) = true ->
+  is_dir (stat (st_base st) s0) = true -> no_chunk_links st s0 ->
   verify_raw H zdecomp fuel st bstr repair s0 = (s', msgs, None) -> wf_id j ->
   stat (canon (other_format st) j) s' = stat (canon (other_format st) j) s0 /\
   (is_dir (stat (fst (name_from_id st j)) s0) = true -> stat (canon st j) s0 = None -> ~ In j (reported msgs)).
 Proof.
-  intros D V Wj. destruct (verify_exact H zdecomp st _ _ _ _ _ _ D V) as (A1 & _ & _ & A4 & _).
+  intros D NL V Wj. destruct (verify_exact H zdecomp st _ _ _ _ _ _ D NL V) as (A1 & _ & _ & A4 & _).
   split.
   - destruct (A4 (canon (other_format st) j)) as [E|(_ & _ & i & Ii & Q)]; [exact E|exfalso].
     destruct (A1 i Ii) as [Wi _]. exact (canon_other_neq st i j Wi Wj Q).
-  - intros Dd N I. destruct (A1 j I) as [_ [[sum G] _]].
+  - intros Dd N I. destruct (A1 j I) as [_ [[sum G] _]]. pose proof Logic.I as I0.
     assert (P : probe (snd (name_from_id st j)) s0 = Err ENOENT).
     { unfold canon, name_from_id in N, Dd |- *. cbn [fst snd] in N, Dd |- *. exact (probe_missing_in_dir _ _ _ Dd N). }
-    unfold LocalStore.get_chunk, read_file in G. rewrite P in G. discriminate.
+    unfold LocalStore.get_chunk, read_file in G. rewrite probe_f_eq in G by (rewrite P; exact I0).
+    rewrite P in G. discriminate.
 Qed.
 
 (* LocalStore.Verify (reads with verification whatever the store's SkipVerify says) *)
 Lemma verify_exact_any (H : bytes -> id) zdecomp st fuel bstr repair s0 s' msgs :
   is_dir (stat (st_base st) s0) = true ->
+  (forall i, not_link (probe (snd (name_from_id st i)) s0)) ->
   verify H zdecomp fuel st bstr repair s0 = (s', msgs, None) ->
   (forall i, In i (reported msgs) ->
      wf_id i /\ (exists sum, get_chunk H zdecomp (verifying st) i s0 = GetInvalid sum) /\
-     exists en, stat (snd (name_from_id st i)) s0 = Some en /\ is_dir (Some en) = false) /\
+     exists m b, stat (snd (name_from_id st i)) s0 = Some (EFile m b)) /\
   (forall i en, wf_id i -> stat (snd (name_from_id st i)) s0 = Some en -> is_dir (Some en) = false ->
      (exists sum, get_chunk H zdecomp (verifying st) i s0 = GetInvalid sum) -> In i (reported msgs)) /\
   (repair = false -> s' = s0) /\
@@ -1036,10 +1086,9 @@ Lemma verify_exact_any (H : bytes -> id) zdecomp st fuel bstr repair s0 s' msgs 
   (forall i m b, wf_id i -> stat (snd (name_from_id st i)) s0 = Some (EFile m b) ->
      ~ In i (reported msgs) -> exists d, storage_data zdecomp (st_unc st) b = Some d /\ H d = i).
 Proof.
-  intros D V. unfold verify in V.
-  destruct (verify_exact H zdecomp (verifying st) fuel bstr repair s0 s' msgs D V) as (A1 & A2 & A3 & A4 & A5 & A6).
-  split; [exact A1|]. split; [exact A2|]. split; [exact A3|]. split; [exact A4|]. split; [|exact (A6 eq_refl)].
-  intros Rp i I. destruct (A1 i I) as (_ & _ & en & S & Nd). exact (A5 Rp i en I S Nd).
+  intros D NL V. unfold verify in V.
+  destruct (verify_exact H zdecomp (verifying st) fuel bstr repair s0 s' msgs D NL V) as (A1 & A2 & A3 & A4 & A5 & A6).
+  split; [exact A1|]. split; [exact A2|]. split; [exact A3|]. split; [exact A4|]. split; [exact A5|exact (A6 eq_refl)].
 Qed.
 
 (* the ids Verify hands to its workers are those of existing canonical chunk files, so the order in which
@@ -1052,11 +1101,12 @@ Proof. intros V. destruct (verify_ids_spec st _ _ _ _ _ V) as (W & C & _). split
 
 Lemma verify_leaves_other_format_any (H : bytes -> id) zdecomp st fuel bstr repair s0 s' msgs j :
   is_dir (stat (st_base st) s0) = true ->
+  (forall i, not_link (probe (snd (name_from_id st i)) s0)) ->
   verify H zdecomp fuel st bstr repair s0 = (s', msgs, None) -> wf_id j ->
   stat (canon (other_format st) j) s' = stat (canon (other_format st) j) s0 /\
   (is_dir (stat (fst (name_from_id st j)) s0) = true -> stat (canon st j) s0 = None -> ~ In j (reported msgs)).
 Proof.
-  intros D V Wj. exact (verify_leaves_other_format H zdecomp (verifying st) fuel bstr repair s0 s' msgs j D V Wj).
+  intros D NL V Wj. exact (verify_leaves_other_format H zdecomp (verifying st) fuel bstr repair s0 s' msgs j D NL V Wj).
 Qed.
 
 (* what Verify did before: run on a store opened with SkipVerify it reports nothing and removes nothing,
@@ -1075,3 +1125,17 @@ Proof.
     - rewrite E. exists (VmOther i :: m). split; [reflexivity|exact R]. }
   destruct (G ids s0) as (m & E & R). rewrite E. cbn. split; [reflexivity|exact R].
 Qed.
+
+(* S3 prune with cancellation: not interrupted = the uninterrupted prune (so nil implies complete) *)
+Lemma s3_prune_loop_c_nil stop prefix unc keep listed : forall bucket b',
+  s3_prune_loop_c stop prefix unc keep listed bucket = (b', false) ->
+  b' = s3_prune_loop prefix unc keep listed bucket.
+Proof.
+  induction listed as [|k r IH]; intros bucket b' E; cbn [s3_prune_loop_c s3_prune_loop] in *.
+  - now inversion E.
+  - destruct (stop k); [discriminate|]. destruct (s3_id_from_name prefix unc k) as [i|]; [destruct (keep i)|]; now apply IH.
+Qed.
+
+Lemma s3_prune_c_nil stop prefix unc keep bucket b' :
+  s3_prune_c stop prefix unc keep bucket = (b', false) -> b' = s3_prune prefix unc keep bucket.
+Proof. apply s3_prune_loop_c_nil. Qed.
